@@ -43,7 +43,20 @@ type Extractor struct {
 	resolver        func(core.IndirectRef) (core.Object, error) // Reference resolver
 	xobjectDepth    int                                         // Current XObject nesting depth
 	maxXObjectDepth int                                         // Maximum nesting depth (prevents infinite recursion)
+	xobjectBytes    int                                         // Form XObject content executed since Extract began
 }
+
+// maxXObjectBytes bounds the Form XObject content executed for one content
+// stream. A form may be drawn any number of times and may draw other forms, so
+// the work a page asks for is the product of the fan-outs along a chain of
+// forms, not the size of the file: ten forms that each draw the next one ten
+// times are a file of two kilobytes and 10^10 executions. Real pages stay far
+// below this bound. Each execution is charged its content plus a fixed cost
+// for setting it up.
+const (
+	maxXObjectBytes = 64 << 20
+	xobjectCallCost = 1 << 10
+)
 
 // NewExtractor creates a new text extractor with initialized graphics state.
 func NewExtractor() *Extractor {
@@ -177,6 +190,7 @@ func resolveIfRef(obj core.Object, resolver func(core.IndirectRef) (core.Object,
 // Extract extracts text fragments from parsed content stream operations.
 func (e *Extractor) Extract(operations []contentstream.Operation) ([]TextFragment, error) {
 	e.fragments = make([]TextFragment, 0)
+	e.xobjectBytes = 0
 
 	for i, op := range operations {
 		if err := e.processOperation(op); err != nil {
@@ -437,6 +451,12 @@ func (e *Extractor) invokeXObject(name string) error {
 
 	if len(data) == 0 {
 		return nil // Empty content
+	}
+
+	// Account for the content about to be executed
+	e.xobjectBytes += len(data) + xobjectCallCost
+	if e.xobjectBytes > maxXObjectBytes {
+		return fmt.Errorf("Form XObjects expand to more than %d bytes of content", maxXObjectBytes)
 	}
 
 	// Get XObject's own resources (if any)
